@@ -7,6 +7,7 @@ package composite
 import (
 	"fmt"
 	"sort"
+	"strconv"
 	"strings"
 
 	"github.com/go-logr/logr"
@@ -83,6 +84,43 @@ type world struct {
 	relIdx    map[string]cache.Indexer
 	revIdx    cache.Indexer
 	resources *dynamicdiscovery.ResourceMap
+	// canonical body of every apply-patch seen so far, by the hash the memo stores
+	hashBodies map[uint64]interface{}
+}
+
+// noteApplies remembers the bodies of the apply requests in the current log.
+func (w *world) noteApplies() {
+	for _, e := range w.sim.LogCopy() {
+		if e.Verb == "apply" && e.BodyHash != "" {
+			if h, err := strconv.ParseUint(e.BodyHash, 10, 64); err == nil {
+				w.hashBodies[h] = e.Body
+			}
+		}
+	}
+}
+
+// memoDump: the process-global SSA memo in the form the model reads.
+func (w *world) memoDump() []interface{} {
+	out := []interface{}{}
+	entries := common.VerifMemoDump()
+	sort.Slice(entries, func(i, j int) bool { return entries[i].Key < entries[j].Key })
+	for _, e := range entries {
+		out = append(out, vs.M{"key": e.Key, "desired": w.hashBodies[e.Hash], "generation": e.Generation})
+	}
+	return out
+}
+
+// customizeCached: the cached customize answer for the cached parent, or nil.
+func (w *world) customizeCached(name string) interface{} {
+	for _, it := range w.parentIdx.List() {
+		u := it.(*unstructured.Unstructured)
+		if u.GetName() == name {
+			if v, ok := w.pc.customize.VerifCachedResponse(u.GetUID(), u.GetGeneration()); ok {
+				return v
+			}
+		}
+	}
+	return nil
 }
 
 func (w *world) close() { w.sim.Close(); w.hook.Close() }
@@ -191,7 +229,8 @@ func newIndexer() cache.Indexer {
 }
 
 func newWorld(cfg scfg) *world {
-	w := &world{cfg: cfg, childIdx: map[string]cache.Indexer{}, relIdx: map[string]cache.Indexer{}}
+	w := &world{cfg: cfg, childIdx: map[string]cache.Indexer{}, relIdx: map[string]cache.Indexer{}, hashBodies: map[uint64]interface{}{}}
+	common.VerifMemoReset()
 	defs := simDefs(cfg)
 	w.sim = vs.NewSim(defs)
 	w.hook = vs.NewHookServer(w.sim)
